@@ -119,6 +119,14 @@ def parse_unit(text, fname):
             region = None
             start = n + 1
             continue
+        m = re.match(r"^\s*//!stub\s+(\S+)\s+(\S+)\s*$", ln)
+        if m and region is None:
+            if cur:
+                segs.append(("text", "\n".join(cur), start))
+                cur = []
+            segs.append(("stub", m.group(1), m.group(2)))
+            start = n + 1
+            continue
         m = re.match(r"^\s*//!include\s+(\S+)\s*$", ln)
         if m and region is None:
             if cur:
@@ -260,3 +268,33 @@ def erasure_check(emitted, real_text):
     a = norm_tokens(tokenize(erase(emitted)))
     b = norm_tokens(tokenize(real_text))
     return a == b
+
+
+def stub_of(region):
+    """the contract of a region proved in another unit, as an external_body stub: signature + header annotations
+    (everything up to the body's opening brace), body replaced by unimplemented!()"""
+    items = region.items()
+    out = []
+    depth = 0
+    seen_fn = False
+    for x in items:
+        if x[0] == "tok":
+            t = x[1]
+            if t == "fn":
+                seen_fn = True
+            if seen_fn and t == "{" and depth == 0:
+                break
+            if t in ("(", "["):
+                depth += 1
+            elif t in (")", "]"):
+                depth -= 1
+            out.append(t)
+        else:
+            txt = x[1]
+            if x[2] == "line":
+                if txt.strip().startswith("#["):
+                    continue
+                out.append("\n" + txt + "\n")
+            else:
+                out.append(txt)
+    return "#[verifier::external_body] " + " ".join(out) + "\n{ unimplemented!() }"
